@@ -49,6 +49,7 @@ type Engine struct {
 	onceMemo      map[*ssa.Global]*onceInfo
 	onceDone      map[*ssa.Global]bool
 	initConst     map[*ssa.Global]map[string]*ssa.Const
+	initNonNil    map[*ssa.Global]map[string]bool
 }
 
 func NewEngine(prog *ssa.Program, cg *callgraph.Graph, inModule func(*ssa.Function) bool, goarch string) *Engine {
@@ -381,6 +382,8 @@ func (a *FuncAn) fromUnclassifiedExtern(v ssa.Value) bool {
 	return true
 }
 
+const untrackedPrefix = "outside the tracked memory model: "
+
 // check proves all goals at block b; returns status text.
 func (a *FuncAn) check(b *ssa.BasicBlock, goals []Goal) (bool, string) {
 	if !a.Converged {
@@ -400,6 +403,9 @@ func (a *FuncAn) check(b *ssa.BasicBlock, goals []Goal) (bool, string) {
 				for _, f := range a.proverFor(a.in[b]).facts {
 					fmt.Println("DEBUG prover fact:", f.String(), ">= 0")
 				}
+			}
+			if why, un := a.untrackedIn(g.L); un {
+				return false, untrackedPrefix + g.Text + "  [" + a.goalText(g.L) + "] depends on " + why
 			}
 			return false, "cannot show " + g.Text + "  [" + a.goalText(g.L) + "]; facts: " + a.factsText(b, g.L)
 		}
@@ -547,6 +553,9 @@ func (e *Engine) Obligations(f *ssa.Function) []*Obl {
 		o.Why = why
 		if !ok {
 			o.Status = Failed
+			if strings.HasPrefix(why, untrackedPrefix) {
+				o.Status = Unsupported
+			}
 		}
 		for _, g := range goals {
 			if len(g.L.t) > 0 {
